@@ -61,7 +61,10 @@ def shapley_trace(tid, n, v, partner=None):
         t["entry_bits"] = int(all(float(a) == float(b) for a, b in zip(allv, onev)))
         again = list(compute_shapley_value(g))                     # a second evaluation on the same object
         t["entry_bits"] &= int(all(float(a) == float(b) for a, b in zip(allv, again)))
-        t["lo_after"] = D.exact_arr(g.get_values(), scale)          # the game as it is after the computations
+        try:
+            t["lo_after"] = D.exact_arr(g.get_values(), scale)      # the game as it is after the computations
+        except D.DriverError:
+            t["lo_after"] = [10 ** 7] * 2 ** n
     except D.DriverError:
         raise
     except Exception as ex:  # noqa: BLE001
@@ -85,8 +88,11 @@ def expl_trace(tid, n, lo, up):
             full = D.exact_arr(mg.get_values(), scale)
             single = [D.exact_int(mg.get_value(Coalition(c)), scale) for c in range(2 ** n)]
             t["mg"].append(full if full == single else [x + 999983 for x in full])
-        t["lo_after"] = D.exact_arr(g.get_lower_bounds(), scale)
-        t["up_after"] = D.exact_arr(g.get_upper_bounds(), scale)
+        try:
+            t["lo_after"] = D.exact_arr(g.get_lower_bounds(), scale)
+            t["up_after"] = D.exact_arr(g.get_upper_bounds(), scale)
+        except D.DriverError:
+            t["lo_after"] = t["up_after"] = [10 ** 7] * 2 ** n
         t["en_after"] = D.interval(float(compute_exploitability(g)), factorial(n) * scale, rel_ulps=8 * (n + 2), mag=(2 * n + 1) * M, tight=True)
     except D.DriverError:
         raise
